@@ -277,7 +277,9 @@ class DocActions(object):
     # Copy over all columns from the old table to the new.
     new_table = self._engine.tables[new_table_id]
     for new_column in new_table.all_columns.values():
-      if not new_column.is_private():
+      # Helper columns (e.g. the lookup map every new table starts with) may be missing in the old
+      # table if they were cleaned up as unused; there is nothing to copy for those.
+      if not new_column.is_private() and old_table.has_column(new_column.col_id):
         new_column.copy_from_column(old_table.get_column(new_column.col_id))
     new_table.grow_to_max()   # We need to bring formula columns to the right size too.
 
